@@ -1469,6 +1469,13 @@ int32_t tls13ParseServerHello(ssl_t *ssl,
     }
 
     /* Now we can do the postponed checks. */
+    if (!sslClientOfferedCipherSuite(ssl, cipher))
+    {
+        ssl->err = SSL_ALERT_ILLEGAL_PARAMETER;
+        psTraceIntInfo("Server selected a cipher we did not offer: %d\n",
+            cipher);
+        return MATRIXSSL_ERROR;
+    }
     if ((ssl->cipher = sslGetCipherSpec(ssl, cipher)) == NULL)
     {
         ssl->err = SSL_ALERT_ILLEGAL_PARAMETER;
